@@ -309,6 +309,8 @@ func (s *Session) init() error {
 		close(connectedCh)
 	}
 
+	verifOrderHosts(hosts)
+
 	// before waiting for them to connect, add them all to the policy so we can
 	// utilize efficiencies by calling AddHosts if the policy supports it
 	type bulkAddHosts interface {
